@@ -2025,6 +2025,7 @@ func isPhi(v ssa.Value) bool {
 func c09Prefix(w *World, r *Result) {
 	rule := "R-C09-prefix"
 	found := false
+	prefixField := parserPrefixField(w)
 	for _, fn := range w.Funcs("parser") {
 		for _, b := range fn.Blocks {
 			for _, ins := range b.Instrs {
@@ -2033,7 +2034,7 @@ func c09Prefix(w *World, r *Result) {
 					continue
 				}
 				fa, ok := st.Addr.(*ssa.FieldAddr)
-				if !ok || structFieldName(fa.X.Type(), fa.Field) != "prefix" {
+				if !ok || prefixField == "" || structFieldName(fa.X.Type(), fa.Field) != prefixField {
 					continue
 				}
 				if k, ok := st.Val.(*ssa.Const); ok && k.Value != nil {
@@ -2118,7 +2119,7 @@ func prefixSpellable(w *World, r *Result, rule string) {
 				legal = false
 			}
 		}
-		key := "prefix:spellable:" + FuncName(fn)
+		key := "prefix:spellable"
 		if legal {
 			r.Bad(rule, key, w.Pos(fn.Pos()), fmt.Sprintf("a prefixed name is prefix + %q + name, every character of which may occur in a user identifier: the importing file can define (or call) h<digest>%sname itself, which then stands for the imported file's definition", sep, sep))
 		} else {
